@@ -75,11 +75,9 @@ def descOf (status : Nat) : Msg → Option String
       | some nm => some (nm ++ "{" ++ payloadText d ++ "};")
       | none => some ("// Meta Type=$" ++ hex2 ty ++ s!" Length={d.length} Text=" ++ "{" ++ payloadText d ++ "};")
   | .sysex d =>
-      -- F0, then the length byte(s) shown as /*len:..*/ for the first one, then the payload
-      if d.length < 128 then
-        some ("SysEx$=F0,/*len:" ++ hex2U d.length ++ "*/" ++
-          String.join (d.map (fun b => if b = 0xF7 then hex2U b else hex2U b ++ ",")) ++ ";")
-      else none
+      -- F0, the length (upper-case hexadecimal, at least two digits), then every data byte — an F7 among them is data — separated by commas
+      some ("SysEx$=F0,/*len:" ++ (if d.length < 256 then hex2U d.length else String.ofList ((Nat.toDigits 16 d.length).map Char.toUpper)) ++ "*/" ++
+        String.intercalate "," (d.map hex2U) ++ ";")
 
 structure DumpSt where
   frac : Nat := 4
